@@ -35,6 +35,8 @@ def obligations(tier):
            bounds="clock, old modified, caller modified: every microsecond in a 3 s window; version, revoked flag symbolic; 9 change sets"),
         CH("sco_locked_properties", H, "sco_locked", t, mode="E1s", functions=F[1:2],
            bounds="a 2.1 File made versionable by custom created/modified/revoked, object and dict, UUIDv5 or explicit id x 6 properties (4 id-contributing, 2 of them absent) x alter / add / remove; after each call four legal changes to other objects (2.1, 2.0, dict, an explicit-id File) are still applied"),
+        CH("mappings_and_revoked_content_without_modified", H, "mapping_forms", t * 2, mode="E1s", functions=F[1:3] + ["stix2.versioning._get_stix_version", "stix2.versioning._check_versionable_object"],
+           bounds="content as dict / OrderedDict / dict subclass / UserDict x 2.1 / 2.0 x 8 clock offsets x 4 old instants x 4 revoked shapes (with and without 'modified') x new_version / revoke / add_markings"),
         CH("change_sets_through_custom_properties", H, "through_custom_properties", t, mode="E1s", functions=F[1:2] + ["stix2.base._STIXBase.__init__"],
            bounds="5 objects (2.1 / 2.0, with and without a creator, a versionable File with a deterministic id) x 10 properties named through new_version(custom_properties=...) (id, type, created, creator, older / equal modified, revoked, a custom name, id-contributing ones) x with/without an ordinary change"),
         CH("marking_operations_version", H, "marking_ops", t * 2, mode="E1s", functions=F + ["stix2.markings.object_markings.add_markings",
